@@ -1,7 +1,8 @@
-(* C10 - every picture shows exactly the image bytes it was given.  (The sizing rule is in
-   Model/Extent.v / Props C10 extent theorems below.) *)
+(* C10 - every picture shows exactly the image bytes it was given, at the requested size.
+   Bytes and relationships: Model/Pkg.v.  The sizing rule and the caller's size configurations over histories of
+   additions: Model/Extent.v (theorems at the end). *)
 From Coq Require Import List Bool Arith NArith ZArith.
-From WZ Require Import Model.Pkg Proofs.PkgProofs.
+From WZ Require Import Model.Pkg Proofs.PkgProofs Model.Extent Proofs.ExtentProofs.
 Import ListNotations.
 
 Theorem C10_inv_step : forall k o k', Inv k -> step k o = Some k' -> Inv k'.
@@ -34,3 +35,63 @@ Print Assumptions C10_new_media_fresh.
 Example C10_example : exists k', run new_pkg [AddImage FPng 7%N true; AddHF false HDefault 1%N; SaveReopen; AddImage FJpeg 8%N false] = Some k'
   /\ pics k' = [(RId 2, 7%N); (RId 4, 8%N)] /\ nimg k' = 2%Z.
 Proof. eexists. vm_compute. repeat split; reflexivity. Qed.
+
+(* ---- the displayed size (Model/Extent.v): lengths in pixels, micrometres and EMU ---- *)
+Open Scope Z_scope.
+
+(* both dimensions given: exactly those *)
+Theorem C10_extent_explicit :
+  forall pw ph w h k, 0 < w -> 0 < h -> extent pw ph (Some (mkSize w h k)) = (w * um_emu, h * um_emu).
+Proof. exact extent_explicit. Qed.
+Print Assumptions C10_extent_explicit.
+
+(* one dimension and the aspect-ratio flag: the other dimension is the one the pixel aspect ratio gives (rounded down
+   to a whole EMU) *)
+Theorem C10_extent_width_keeps_ratio :
+  forall pw ph w, 0 < w -> 0 < pw -> 0 <= ph ->
+  let '(cx, cy) := extent pw ph (Some (mkSize w 0 true)) in
+  cx = w * um_emu /\ cy * pw <= cx * ph < (cy + 1) * pw.
+Proof. exact extent_width_keeps_ratio. Qed.
+Print Assumptions C10_extent_width_keeps_ratio.
+
+Theorem C10_extent_height_keeps_ratio :
+  forall pw ph h, 0 < h -> 0 < ph -> 0 <= pw ->
+  let '(cx, cy) := extent pw ph (Some (mkSize 0 h true)) in
+  cy = h * um_emu /\ cx * ph <= cy * pw < (cx + 1) * ph.
+Proof. exact extent_height_keeps_ratio. Qed.
+Print Assumptions C10_extent_height_keeps_ratio.
+
+(* no configuration, or one that gives nothing usable: the pixel size at 96 dpi *)
+Theorem C10_extent_default : forall pw ph, extent pw ph None = (pw * px_emu, ph * px_emu).
+Proof. exact extent_default. Qed.
+Print Assumptions C10_extent_default.
+
+Theorem C10_extent_unusable :
+  forall pw ph w h k, (w <= 0 /\ h <= 0) \/ (k = false /\ (w <= 0 \/ h <= 0)) ->
+  extent pw ph (Some (mkSize w h k)) = (pw * px_emu, ph * px_emu).
+Proof. exact extent_unusable. Qed.
+Print Assumptions C10_extent_unusable.
+
+(* over histories of additions and of the caller's own changes to its configurations: earlier pictures keep their
+   extent; the library never changes a configuration of the caller; so two pictures added with one unchanged
+   configuration are each sized by their own pixel size *)
+Theorem C10_extents_kept : forall ops s, exists t, shown (xrun s ops) = shown s ++ t.
+Proof. exact xrun_prefix. Qed.
+Print Assumptions C10_extents_kept.
+
+Theorem C10_configurations_untouched : forall ops s, store (xrun s ops) = store (xrun s (caller_only ops)).
+Proof. exact store_frame. Qed.
+Print Assumptions C10_configurations_untouched.
+
+Theorem C10_same_configuration_twice :
+  forall s i c pw1 ph1 pw2 ph2, lookup i (store s) = Some c ->
+  shown (xrun s [XAdd pw1 ph1 (Some i); XAdd pw2 ph2 (Some i)])
+  = shown s ++ [extent pw1 ph1 (Some c); extent pw2 ph2 (Some c)].
+Proof. exact same_cfg_twice. Qed.
+Print Assumptions C10_same_configuration_twice.
+
+Example C10_extent_example :
+  shown (xrun (mkX [] []) [XSet 1 (mkSize 40000 0 true); XAdd 200 100 (Some 1%nat); XAdd 100 200 (Some 1%nat); XAdd 10 10 None;
+                           XSet 1 (mkSize 10000 20000 false); XAdd 7 9 (Some 1%nat)])
+  = [(1440000, 720000); (1440000, 2880000); (95250, 95250); (360000, 720000)].
+Proof. exact ex_history. Qed.
